@@ -390,11 +390,17 @@ func (rp *ResourcePool) scaleOutResources() (resourceWrapper, bool) {
 
 // 扩容并获取连接, 外层加锁了，所以这边不加锁
 func (rp *ResourcePool) AddCapacityResource() (resourceWrapper, bool) {
-	capacity := int(rp.capacity.Get())
-	if capacity < 0 || capacity >= int(rp.maxCapacity.Get()) {
-		return resourceWrapper{}, false
+	for {
+		capacity := rp.capacity.Get()
+		// capacity 0 means the pool is closed or closing: it must not be reopened,
+		// and a concurrent ScaleCapacity (which uses CAS) must not be overwritten
+		if capacity <= 0 || capacity >= rp.maxCapacity.Get() {
+			return resourceWrapper{}, false
+		}
+		if rp.capacity.CompareAndSwap(capacity, capacity+1) {
+			break
+		}
 	}
-	rp.capacity.Add(1)
 	rp.available.Add(1)
 	return resourceWrapper{}, true
 }
